@@ -87,6 +87,10 @@ type C15Case struct {
 	// Plain: the target is a plain http.Handler registered with HandleWithFilter and reached
 	// through ServeHTTP; it only knows http.ResponseWriter (WriteHeader for the first call, Write)
 	Plain bool `json:"plain,omitempty"`
+	// Rewrap: the route function hands its Response to a helper that wraps it once more
+	// (restful.NewResponse(resp)) and writes through the wrapper; the filters keep observing the
+	// Response they passed on
+	Rewrap bool `json:"rewrap,omitempty"`
 }
 
 type c15Entity struct {
@@ -120,6 +124,7 @@ func genC15(t *rapid.T) C15Case {
 	}
 	c.Middleware = rapid.IntRange(0, 3).Draw(t, "middleware") == 0
 	c.Plain = rapid.IntRange(0, 5).Draw(t, "plainhandler") == 0
+	c.Rewrap = !c.Plain && rapid.IntRange(0, 5).Draw(t, "rewrap") == 0
 	c.FailPos = -1
 	if c.Encoding == "" && rapid.IntRange(0, 2).Draw(t, "fails") > 0 {
 		c.FailPos = rapid.IntRange(0, 1050).Draw(t, "failpos")
@@ -164,6 +169,10 @@ func runC15(c C15Case, failAt int) (cw *countingWriter, obs c15Obs, vs []*Violat
 		}))
 	}
 	ws.Route(rb.To(func(req *restful.Request, resp *restful.Response) {
+		if c.Rewrap {
+			resp = restful.NewResponse(resp)
+			resp.SetRequestAccepts(c.Accept)
+		}
 		for i, op := range c.Ops {
 			var val interface{}
 			if !op.Nil {
@@ -334,6 +343,9 @@ func checkC15(c C15Case) (vs []*Violation) {
 	}
 	if c.Plain {
 		labels = append(labels, "plain_handler_behind_HandleWithFilter")
+	}
+	if c.Rewrap {
+		labels = append(labels, "handler_writes_through_a_second_wrapper")
 	}
 	if obs.status == 406 {
 		labels = append(labels, "entity_writer_406")
